@@ -388,11 +388,17 @@ pub struct AppRow {
     /// a return of capital (per-share amount in the row's currency) instead of a Buy/Sell
     #[serde(default)]
     pub roc: bool,
+    /// the price cell is an explicit 0 (a zero-cost buy / a worthless sale)
+    #[serde(default)]
+    pub zero_price: bool,
+    /// the commission cell is an explicit 0.00
+    #[serde(default)]
+    pub zero_commission: bool,
 }
 
 impl AppRow {
     pub fn usd(trade: &str) -> AppRow {
-        AppRow { trade: trade.to_string(), settle_off: 2, cur: Some("USD".into()), fx: None, commission: false, ccur: None, cfx: None, sell: false, roc: false }
+        AppRow { trade: trade.to_string(), settle_off: 2, cur: Some("USD".into()), fx: None, commission: false, ccur: None, cfx: None, sell: false, roc: false, zero_price: false, zero_commission: false }
     }
 }
 
@@ -500,8 +506,8 @@ pub fn app_csv_fmt(rows: &[AppRow], first_index: usize, legacy_date: bool, date_
             fmt_date(trade + Duration::days(r.settle_off), date_fmt),
             if r.roc { "RoC" } else if r.sell { "Sell" } else { "Buy" },
             if r.roc { "" } else if r.sell { "1" } else { "1000" },
-            if r.roc { "0.001" } else { "10.00" },
-            if r.commission && !r.roc { "1.00" } else { "" },
+            if r.roc { "0.001" } else if r.zero_price { "0" } else { "10.00" },
+            if r.commission && !r.roc { if r.zero_commission { "0.00" } else { "1.00" } } else { "" },
             r.cur.clone().unwrap_or_default(),
             r.fx.clone().unwrap_or_default(),
             r.ccur.clone().unwrap_or_default(),
